@@ -387,6 +387,9 @@ class Mode(LogMixin):
 
         # Clean up the mode handlers and devices
         self._remove_mode_event_handlers()
+        # delayed control events which arrived after stop() cleared the delays (their handlers were registered
+        # until now) must not fire on the removed devices
+        self.delay.clear()
         self._remove_mode_devices()
 
         for callback in self.stop_callbacks:
